@@ -2,12 +2,16 @@ PROPS["C17"] = dict(
     pkg="p_blocks", hooks=[], level="exploration", design="DESIGN.md §4 C17",
     technique="model-based PBT (rapid) against a set model with a reopen-after-every-operation differential (a second allocator "
               "opened on a copy of the bytes is probed and compared with the model), bounded-exhaustive op lists on tiny "
-              "geometries, constructor grid over valid/invalid block sizes, memory-mapped-file backend with close + map again, "
+              "geometries, a sparse Buffer backend for gigabyte-sized segments, constructor grid over valid/invalid block sizes, memory-mapped-file backend with close + map again, "
               "race-detector stress with an atomic owner table",
     rule="case = (block size, segments, oversize bytes, fit, backend inmem|mmap, op list over Arrange / fill / Free(allocated | free | "
          "out of range | negative) / drain / Block+stamp / Block out of range / Reopen-and-continue); exhaustive over a 11-op alphabet "
          "for block sizes 1, 2 (4) with 1-3 segments to the depth in exhaustive_parts, rapid lists up to 300 ops for block sizes 1..1024 "
-         "with 1-3 segments, thorough tier also 2048/4096 on one segment; constructor cases = (block size valid or invalid, buffer size, fit); "
+         "with 1-3 segments, thorough tier also 2048/4096 on one segment; page-multiple block sizes 4096, 8192 and the non-power-of-two "
+         "multiples 12288, 20480, 24576 (blocks per segment not a power of two) with 1-2 segments on a sparse buffer of the harness "
+         "(only the blocks the allocator touches exist; Block() geometry on a sample of indexes and on every block a case touches), "
+         "bulk arranges reaching block indexes up to ~70000 (and the whole first segment now and then), frees picked by index value "
+         "around byte, 2^15, 2^16 and segment boundaries, reopen probe on a copy of the materialised blocks; constructor cases = (block size valid or invalid, buffer size, fit); "
          "concurrent cases = (geometry, 2-8 goroutines, rounds, blocks held per goroutine); non-trivial = a freed index was handed out again "
          "while another segment holds allocated blocks, or a continuing reopen with >= 1 allocated block, or ArrangeBlock hit the full "
          "allocator, or the constructor had to reject the geometry, or a concurrent case; distinct = FNV hash of the case. Excluded: "
@@ -21,10 +25,11 @@ PROPS["C17"] = dict(
                  "the concurrent oracle is schedule independent (owner table, bounds on Available, quiescent state); a report of the race detector is attributed to the case through a subtest"],
     units=[
         dict(name="exhaustive", run="^TestC17Exhaustive$", shards=(6, 11), timeout=(200, 1500)),
-        dict(name="rapid", run="^TestC17Rapid$", checks=(2500, 12000), shards=(4, 16), timeout=(200, 1500)),
+        dict(name="rapid", run="^TestC17Rapid$", checks=(2500, 8000), shards=(4, 16), timeout=(200, 1500)),
         dict(name="constructor", run="^TestC17Constructor$", checks=(5000, 50000), shards=(1, 4), timeout=(200, 600)),
         dict(name="mmap", run="^TestC17Mmap$", checks=(150, 600), shards=(2, 8), timeout=(200, 1500)),
         dict(name="concurrent", run="^TestC17Concurrent$", shards=(2, 16), timeout=(200, 1500), race=True),
+        dict(name="sparse", run="^TestC17Sparse$", checks=(150, 1200), shards=(2, 8), timeout=(200, 1500)),
         dict(name="big", run="^TestC17Big$", checks=(1, 12), shards=(1, 4), timeout=(200, 1500), enabled=(False, True)),
     ],
 )
@@ -32,7 +37,8 @@ PROPS["C17"] = dict(
 LEVEL_TEXT["C17"] = (
     "Generated-input search with an exact oracle: every op list over a 11-op alphabet up to a depth bound on 8- to 64-block "
     "allocators (every segment boundary and free-hint position), thousands of random long lists on block sizes up to 1024 "
-    "(4096 in the thorough tier) in memory and on memory-mapped files, are compared call by call with a set model; after every "
+    "(4096 in the thorough tier) in memory and on memory-mapped files, and on block sizes of 1 to 6 pages with up to 70000 allocated "
+    "blocks on a sparse buffer, are compared call by call with a set model; after every "
     "operation a second allocator is opened on a copy of the bytes and its allocated set, recovered by probing, is compared with "
     "the model; block byte ranges are located by pointer arithmetic and checked against each other and the headers; the constructor "
     "is tried on a grid of valid and invalid geometries; 2-8 goroutines allocate and free under the race detector with an owner "
